@@ -7,6 +7,8 @@ through the library, and each case is executed on the real Request / Response ob
 """
 from __future__ import annotations
 
+import json
+
 import struct
 import warnings
 from typing import Any, Dict, List, Optional, Tuple
@@ -114,8 +116,32 @@ class Emitter:
             raise tlc.MachineryError(f"dop {k}")
         return oid
 
+    def table(self, d: Dict[str, Any], key_ids: Dict[str, str]) -> str:
+        """a TABLE with its key DOP and the objects of its rows; one per use (key and struct parameter share it by identity)"""
+        memo = getattr(self, "_tables", None)
+        if memo is None:
+            memo = self._tables = {}
+        key = json.dumps(d, sort_keys=True)
+        if key in memo:
+            return memo[key]
+        oid, name = self.uid("TAB")
+        kid, kname = self.uid("DOP")
+        self.layer.dops.append(og.dop(kid, kname, self.dct(d["kdct"], key_ids), ptype=BASE[d["kdct"]["base"]]))
+        rows = []
+        for r in d["rows"]:
+            sid = did = None
+            if r["st"]["k"] == "struct":
+                sid = self.dop(r["st"], key_ids)
+            elif r["st"]["k"] != "none":
+                did = self.dop(r["st"], key_ids)
+            rows.append((f"{oid}.{r['n']}", r["n"], r["key"], sid, did))
+        self.layer.tables.append(og.table(oid, name, kid, rows))
+        memo[key] = oid
+        return oid
+
     def params(self, ps: List[Dict[str, Any]], prefix: str) -> List[str]:
         key_ids = {p["n"]: f"{prefix}K.{p['n']}" for p in ps if p["k"] in ("LENGTH-KEY", "TABLE-KEY")}
+        self._tables = {}           # tables are shared within one parameter list only
         out = []
         for p in ps:
             bp = None if p["bp"] < 0 else p["bp"]
@@ -138,6 +164,11 @@ class Emitter:
                 out.append(og.p_system(p["n"], p["sys"], self.dop(p["dop"], key_ids), bytepos=bp, bitpos=bi))
             elif k == "LENGTH-KEY":
                 out.append(og.p_lengthkey(p["n"], key_ids[p["n"]], self.dop(p["dop"], key_ids), bytepos=bp, bitpos=bi))
+            elif k == "TABLE-KEY":
+                out.append(og.p_tablekey(p["n"], key_ids[p["n"]], table_ref=self.table(p["dop"], key_ids), bytepos=bp, bitpos=bi))
+            elif k == "TABLE-STRUCT":
+                self.table(p["dop"], key_ids)
+                out.append(og.p_tablestruct(p["n"], key_ref=key_ids[p["sys"]], bytepos=bp, bitpos=bi))
             else:
                 raise tlc.MachineryError(f"param kind {k}")
         return out
@@ -244,6 +275,9 @@ def dict_py(ps: List[Dict[str, Any]], v: Dict[str, Any]) -> Dict[str, Any]:
             out[name] = None
         elif p["k"] in ("VALUE", "PHYS-CONST", "SYSTEM", "LENGTH-KEY"):
             out[name] = dop_py(p["dop"], val)
+        elif p["k"] == "TABLE-STRUCT" and val["t"] == "pair":
+            row = next((r for r in p["dop"]["rows"] if r["n"] == val["a"]), None)
+            out[name] = (val["a"], dop_py(row["st"], val["b"]) if row is not None and row["st"]["k"] != "none" else atom_py(val["b"], None))
         elif p["k"] in ("CODED-CONST", "NRC-CONST"):
             out[name] = atom_py(val, p["dct"])
         else:
@@ -369,6 +403,9 @@ def shape(ps: List[Dict[str, Any]]) -> Dict[str, Any]:
         elif k == "mux":
             for c in d["cases"]:
                 walk_dop(c["st"])
+        elif k == "table":
+            for r in d["rows"]:
+                walk_dop(r["st"])
         else:
             walk_dop(d["st"])
 
